@@ -17,6 +17,8 @@ var (
 	// ErrInvalidLimit means this type of recursive selector limit is not supported by default
 	// -- to prevent DDOS attacks
 	ErrInvalidLimit = errors.New("unsupported recursive selector limit")
+	// ErrNoSelector means the request carries no selector at all
+	ErrNoSelector = errors.New("no selector")
 )
 
 var maxDepthSelector selector.Selector
@@ -69,6 +71,10 @@ func SelectorValidator(maxAcceptedDepth int64) graphsync.OnIncomingRequestHook {
 // ValidateMaxRecursionDepth examines the given selector node and verifies
 // recursive selectors are limited to the given fixed depth
 func ValidateMaxRecursionDepth(node ipld.Node, maxAcceptedDepth int64) error {
+	// a request sent without a selector arrives with a nil node
+	if node == nil {
+		return ErrNoSelector
+	}
 
 	return traversal.WalkMatching(node, maxDepthSelector, func(progress traversal.Progress, visited ipld.Node) error {
 		if visited.Kind() != ipld.Kind_Map || visited.Length() != 1 {
